@@ -5,6 +5,8 @@ properties added / replaced / removed, property flags and elements changed, on e
 model classes) with validation calls; after every step the real element is dumped (its current
 configuration, as the model sees it) and the model's answers for that configuration are
 compared with the real element's answers.  Oracle: a fresh element built from the same dump."""
+import copy
+import keyword
 import random
 import time
 
@@ -21,6 +23,7 @@ TIE_MODULES = ["StathamModel.Tie"]
 ASSUMPTIONS = ["reconfiguration goes through attribute assignment and the properties mapping (the public surface)"]
 N_HIST = {"quick": 250, "thorough": 3000}
 N_CARRIED = {"quick": 220, "thorough": 1500}
+N_DECLARED = {"quick": 260, "thorough": 2500}
 
 
 def _not_nothing(dg):
@@ -603,10 +606,12 @@ def carried_execute(case):
     return None
 
 
-def carried_shrink(case, budget=150):
+def carried_shrink(case, budget=150, execute=None):
     """Drop steps (then unused values) while the history still ends in a failing call."""
+    execute = execute or carried_execute
+
     def cut(c):
-        hit = carried_execute(c)
+        hit = execute(c)
         if hit is None:
             return None
         return {**c, "steps": c["steps"][:hit[0] + 1]}
@@ -628,7 +633,7 @@ def carried_shrink(case, budget=150):
     remap = {old: new for new, old in enumerate(used)}
     best = {**best, "values": [best["values"][i] for i in used],
             "steps": [({**s, "value": remap[s["value"]]} if s["op"] == "call" else s) for s in best["steps"]]}
-    return best if carried_execute(best) is not None else case
+    return best if execute(best) is not None else case
 
 
 def carried_failure(case):
@@ -753,6 +758,378 @@ def run_carried(ctx, rng, out, stats, n):
                 bump("carried-unreplayable")
 
 
+# ----------------------------------------------------------------------------- declared histories
+# Every oracle above takes "the configuration at that moment" from the live element itself (its dump): if a step leaves
+# the element's own record of its configuration wrong - a step that moves what it was not asked to move, or a step that
+# is refused and takes effect all the same - the dump is wrong in the same way and the fresh element built from it
+# agrees with the live one.  The statement's reference is the configuration that the HISTORY describes: here the harness
+# keeps that configuration itself, as data, from the steps it performed (a step that raised did not happen; a step that
+# returned happened exactly as written), never reading it back from the element, and builds the fresh element from it.
+# What the histories are made of (none of which the families above build):
+#   * `Property` objects that outlive the place they are stored in: the same object is stored again under another
+#     attribute name (`props[new] = props.pop(old)`, or a reassigned mapping that uses the objects it held before under
+#     other keys), and one object is held by two elements / classes, under the same or different attribute names;
+#   * properties declared with an explicit `source=` - equal to the attribute name (what the parser writes for every
+#     property) or different - next to properties without one (those are only ever stored under one name: what their
+#     JSON key is after a move is not fixed by their declaration);
+#   * steps the library may refuse: attribute names that cannot be written in a class body (keywords, names every
+#     object has) and values that are not properties, by item assignment and by reassigning the whole mapping; whether
+#     a step is refused is observed, not assumed.
+# Each history is explicit data (base dumps of the roots, property declarations, value pool, steps), is replayed from
+# that data alone and is shrunk.
+
+# (not `_dict` / `__dict__` / `__class__`: an instance with such a property cannot be read back by the harness either)
+UNWRITABLE_NAMES = sorted(k for k in keyword.kwlist if k.islower()) + ["__doc__", "__module__", "__eq__", "__init__"]
+DECL_NAMES = NEW_NAMES + ["x", "id", "ab"]
+
+
+class Declared:
+    """The live elements of a declared history, and next to them the configuration the steps so far describe."""
+
+    def __init__(self, case):
+        self.bases = [copy.deepcopy(b) for b in case["roots"]]
+        for b in self.bases:
+            b.pop("props", None)
+            b.setdefault("kw", {})["hasProps"] = True
+        self.live = [dsl.build(copy.deepcopy(b)) for b in self.bases]
+        self.specs = case["objs"]                 # declarations (data; the list grows while a history is generated)
+        self.state = {}                           # obj index -> its current required flag / element dump
+        self.objs = {}                            # obj index -> the live Property object (made when first used)
+        self.maps = [dict() for _ in self.bases]  # per root: attribute name -> obj index, in the order of the mapping
+        self.unknown = [False for _ in self.bases]
+        self.values = case["values"]
+        self.by_assignment = 0
+
+    def obj(self, k):
+        if k not in self.objs:
+            spec = self.specs[k]
+            self.state[k] = {"required": bool(spec["required"]), "elem": spec["elem"]}
+            self.objs[k] = Property(dsl.build(spec["elem"]), required=bool(spec["required"]), source=spec["source"])
+        return self.objs[k]
+
+    def config(self, r):
+        d = copy.deepcopy(self.bases[r])
+        plist = []
+        for n, k in self.maps[r].items():
+            key = {"name": n, "source": self.specs[k]["source"] or self.specs[k]["home"]}
+            if self.state[k]["required"]:
+                key["required"] = True
+            plist.append([key, copy.deepcopy(self.state[k]["elem"])])
+        if plist:
+            d["props"] = plist
+        return d
+
+    def reference(self, config):
+        """a freshly constructed element with that configuration"""
+        try:
+            return dsl.build(config)
+        except Exception:  # noqa: BLE001 - the constructor route refuses (an attribute name a class body cannot hold):
+            # the same configuration by ONE assignment of a mapping of new Property objects to a new element
+            bare = {k: v for k, v in config.items() if k != "props"}
+            ref = dsl.build(bare)
+            ref.properties = {key["name"]: Property(dsl.build(sub), required=bool(key.get("required")), source=key["source"])
+                              for key, sub in config.get("props", [])}
+            self.by_assignment += 1
+            return ref
+
+    def apply(self, step):
+        """Perform one step on the live side; move the described configuration iff the step returned.  Returns the
+        name of the exception class if the step raised, else None."""
+        op = step["op"]
+        if op in ("flag", "elem"):
+            prop = self.obj(step["obj"])
+            if op == "flag":
+                prop.required = step["required"]
+                self.state[step["obj"]]["required"] = step["required"]
+            else:
+                prop.element = dsl.build(step["elem"])
+                self.state[step["obj"]]["elem"] = step["elem"]
+            return None
+        if op not in ("kw", "put", "bad", "del"):
+            raise ValueError(op)
+        r = step["root"]
+        el, names = self.live[r], self.maps[r]
+        try:
+            if op == "kw":
+                value = dsl.dec_val(step["lit"])
+                setattr(el, step["kw"], value)
+                kw = self.bases[r]["kw"]
+                if step["kw"] == "additionalProperties":
+                    self.bases[r].pop("addProps", None)
+                    kw.pop("addPropsB", None)
+                    if value is False:
+                        kw["addPropsB"] = False
+                else:
+                    kw[step["kw"]] = step["lit"]
+            elif op == "put":
+                n, k = step["name"], step["obj"]
+                prop = self.obj(k)
+                old = next((x for x, kk in names.items() if kk == k and x != n), None)
+                if step["via"] == "setitem":
+                    if old is not None:  # props[new] = props.pop(old): two steps, each happens or not on its own
+                        prop = el.properties.pop(old)
+                        del names[old]
+                    el.properties[n] = prop
+                    names[n] = k
+                else:  # the whole mapping is reassigned; it uses the objects held so far (one of them under a new key)
+                    new = {x: kk for x, kk in names.items() if x != old}
+                    new[n] = k
+                    el.properties = {x: self.obj(kk) for x, kk in new.items()}
+                    self.maps[r] = new
+            elif op == "bad":
+                value = 0 if step["kind"] == "int" else dsl.build(step["elem"])
+                if step["via"] == "setitem":
+                    el.properties[step["name"]] = value
+                else:
+                    el.properties = {**{x: self.obj(kk) for x, kk in names.items()}, step["name"]: value}
+                self.unknown[r] = True  # accepted: not a configuration this harness can describe
+            else:
+                n = step["name"]
+                if step["via"] == "del":
+                    del el.properties[n]
+                    names.pop(n, None)
+                elif step["via"] == "pop":
+                    el.properties.pop(n)
+                    names.pop(n, None)
+                else:
+                    new = {x: kk for x, kk in names.items() if x != n}
+                    el.properties = {x: self.obj(kk) for x, kk in new.items()}
+                    self.maps[r] = new
+        except Exception as exc:  # noqa: BLE001 - refused: the step did not happen
+            return type(exc).__name__
+        return None
+
+    @staticmethod
+    def outcome(element, enc):
+        try:
+            return core._real_call(element, dec_arg(enc))  # pylint: disable=protected-access
+        except RecursionError:  # while the result was read
+            return {"r": "recursion"}
+
+    def call(self, step):
+        r = step["root"]
+        enc = self.values[step["value"]]
+        live = self.outcome(self.live[r], enc)
+        if self.unknown[r]:
+            return live, None, None
+        config = self.config(r)
+        try:
+            ref = self.reference(config)
+        except Exception:  # noqa: BLE001
+            return live, None, config
+        return live, self.outcome(ref, enc), config
+
+
+def declared_describe(step):
+    op = step["op"]
+    if op == "call":
+        return f"root{step['root']}: call value#{step['value']}"
+    if op == "flag":
+        return f"property#{step['obj']}.required = {step['required']}"
+    if op == "elem":
+        return f"property#{step['obj']}.element = <new element>"
+    if op == "kw":
+        return f"root{step['root']}: {step['kw']} = {dsl.dec_val(step['lit'])!r}"
+    if op == "put":
+        how = "properties[%s] = property#%d (moved with pop() if this root holds it under another name)" if step["via"] == "setitem" \
+            else "properties = {what it holds, with %s: property#%d}"
+        return f"root{step['root']}: " + how % (step["name"], step["obj"])
+    if op == "bad":
+        return f"root{step['root']}: properties[{step['name']}] <- not a Property ({step['kind']}, {step['via']})"
+    return f"root{step['root']}: remove properties[{step['name']}] ({step['via']})"
+
+
+def declared_execute(case):
+    """Run a declared history from its data alone.  Returns (index of the first failing call step, what, the
+    configuration the history describes) or None."""
+    side = Declared(case)
+    for i, step in enumerate(case["steps"]):
+        if step["op"] != "call":
+            side.apply(step)
+            continue
+        live, fr, config = side.call(step)
+        what = carried_mismatch(live, fr)
+        if what:
+            return i, what, config
+    return None
+
+
+def declared_failure(case):
+    case = carried_shrink(case, execute=declared_execute)
+    hit = declared_execute(case)
+    if hit is None:
+        return {"case": {**case, "family": "declared-as-seen", "history": [declared_describe(s) for s in case["steps"]]},
+                "what": "a declared history ended in a call whose answer differs from a fresh element's (seen in the run, not reproduced from the history's data alone)",
+                "finding": None}
+    idx, what, config = hit
+    last = case["steps"][idx]
+    return {"case": {**case, "steps": case["steps"][:idx + 1], "history": [declared_describe(s) for s in case["steps"][:idx + 1]],
+                     "config": config, "value": case["values"][last["value"]]},
+            "what": "after the history, against a fresh element with the configuration that the steps which returned describe "
+                    "(a step that raised counts as not made): " + what.replace("with the same configuration", "with that configuration"),
+            "finding": None}
+
+
+def declared_root(rng, dg):
+    k = rng.random()
+    if k < 0.5:
+        base = {"cls": rng.choice(["Element", "Object"]), "kw": {"hasProps": True}}
+        if rng.random() < 0.45:
+            base["kw"]["addPropsB"] = False
+        if rng.random() < 0.15:
+            base["kw"]["required"] = rng.sample(["a", "b", "x", "zz"], rng.choice([1, 2]))
+    else:
+        base = (dg.obj if k < 0.75 else dg.element)(1)
+        base.pop("props", None)
+        base.setdefault("kw", {})["hasProps"] = True
+    if base["cls"] == "Object":
+        base.setdefault("name", "Model")
+    return base
+
+
+def declared_step(rng, side, case, dg, stats):
+    """One random reconfiguration step as explicit data (new property declarations are appended to case["objs"])."""
+    bump = lambda k: stats.__setitem__(k, stats.get(k, 0) + 1)
+    r = rng.randrange(len(side.live))
+    names = side.maps[r]
+    via = "setitem" if rng.random() < 0.7 else "assign"
+
+    def pick_name():
+        if rng.random() < 0.15:
+            bump("declared-attribute-name-a-class-body-refuses")
+            return rng.choice(UNWRITABLE_NAMES)
+        return rng.choice(DECL_NAMES)
+
+    def new_object(n):
+        k = rng.random()
+        source = None if k < 0.4 else n if k < 0.75 else rng.choice([n + "_src", "a", "b", "class", "a b"])
+        bump("declared-new-property-" + ("without-source" if source is None else "source-equals-name" if source == n else "source-differs"))
+        case["objs"].append({"elem": dg.leaf(), "required": rng.random() < 0.35, "source": source, "home": n})
+        return len(case["objs"]) - 1
+
+    held = sorted({k for m in side.maps for k in m.values()})
+    k = rng.random()
+    if k < 0.27 or not held:
+        n = pick_name()
+        return {"op": "put", "root": r, "name": n, "obj": new_object(n), "via": via}
+    if k < 0.55:
+        # an object that exists already is stored (again): in this root under another name = a move, in the other root =
+        # the object is shared; a property without a declared source keeps the one name it was declared for
+        obj = rng.choice(held if rng.random() < 0.8 or not case["objs"] else range(len(case["objs"])))
+        spec = case["objs"][obj]
+        n = spec["home"] if spec["source"] is None else pick_name()
+        here = [x for x, kk in names.items() if kk == obj]
+        bump("declared-put-existing-" + ("moved-to-another-name" if here and here[0] != n else "same-place" if here else
+                                         "shared-with-another-root" if any(obj in m.values() for m in side.maps) else "put-back"))
+        return {"op": "put", "root": r, "name": n, "obj": obj, "via": via}
+    if k < 0.65 and names:
+        return {"op": "del", "root": r, "name": rng.choice(list(names)), "via": rng.choice(["del", "pop", "assign"])}
+    if k < 0.73:
+        obj = rng.choice(held)
+        return {"op": "flag", "obj": obj, "required": not side.state[obj]["required"]}
+    if k < 0.80:
+        return {"op": "elem", "obj": rng.choice(held), "elem": dg.leaf()}
+    if k < 0.90:
+        kw = rng.choice(["additionalProperties", "additionalProperties", "required", "minProperties", "maxProperties"])
+        if kw == "additionalProperties":
+            lit = rng.random() < 0.4
+        elif kw == "required":
+            pool = list(dict.fromkeys([side.specs[kk]["source"] or side.specs[kk]["home"] for kk in names.values()] + ["a", "b", "zz"]))
+            lit = rng.sample(pool, rng.choice([0, 1, 1, 2]))
+        else:
+            lit = core.enc_val(rng.choice(NUM_KWS[kw]))
+        return {"op": "kw", "root": r, "kw": kw, "lit": lit}
+    kind = rng.choice(["int", "element"])
+    step = {"op": "bad", "root": r, "name": pick_name(), "kind": kind, "via": via}
+    if kind == "element":
+        step["elem"] = dg.leaf()
+    return step
+
+
+def run_declared(ctx, rng, out, stats, n):
+    """Histories whose reference configuration is kept by the harness from the steps (see above)."""
+    vg, dg = ValueGen(rng), dsl.DumpGen(rng)
+    bump = lambda k: stats.__setitem__(k, stats.get(k, 0) + 1)
+    found = 0
+    for _ in range(n):
+        if found >= 3:
+            break
+        roots = [declared_root(rng, dg) for _ in range(2 if rng.random() < 0.4 else 1)]
+        case = {"family": "declared", "roots": roots, "objs": [], "values": [], "steps": []}
+        side = Declared(case)
+        bump("declared-histories")
+        bump("declared-roots-%d" % len(roots))
+        keys_seen = ["zz"]
+        reconfigs, failed = 0, False
+
+        def reconfigure():
+            nonlocal reconfigs
+            step = declared_step(rng, side, case, dg, stats)
+            case["steps"].append(step)
+            bump("declared-step-" + step["op"])
+            for key in (step.get("name"),) + ((case["objs"][step["obj"]]["source"],) if step["op"] == "put" else ()):
+                if key is not None and key not in keys_seen:
+                    keys_seen.append(key)
+            raised = side.apply(step)
+            if raised:
+                bump("declared-step-%s-raised-%s" % (step["op"], raised))
+            else:
+                reconfigs += 1
+
+        def add_values(r):
+            before = len(side.values)
+            vals = []
+            for _ in range(rng.choice([1, 2])):
+                obj = {k: rng.choice(PROBE_LEAVES) for k in rng.sample(keys_seen, min(len(keys_seen), rng.choice([1, 1, 2, 3])))}
+                vals.append(obj)
+            if rng.random() < 0.3:
+                try:
+                    vals += vg.values(dump_to_schema(side.config(r)), 1)
+                except Exception:  # noqa: BLE001
+                    pass
+            for v in vals:
+                try:
+                    side.values.append(core.enc_arg(v))
+                except (TypeError, ValueError):
+                    continue
+            return list(range(before, len(side.values)))
+
+        def call(r, idx):
+            step = {"op": "call", "root": r, "value": idx}
+            case["steps"].append(step)
+            live, fr, config = side.call(step)
+            bump("declared-verdict-" + live["r"])
+            if fr is None:
+                bump("declared-call-without-reference")
+            elif config is not None:
+                out.note_case({"config": config, "value": case["values"][idx], "steps": len(case["steps"]), "root": r}, reconfigs > 0)
+            return carried_mismatch(live, fr) is not None
+
+        side.values.append(core.enc_arg({}))
+        for r in range(len(roots)):
+            for _ in range(rng.choice([1, 2, 3])):
+                reconfigure()
+        for r in range(len(roots)):
+            for idx in [0] + add_values(r):
+                failed = failed or call(r, idx)
+        for _ in range(rng.randint(6, 9) if ctx["tier"] == "quick" else rng.randint(8, 30)):
+            if failed:
+                break
+            reconfigure()
+            for r in range(len(roots)):
+                picks = add_values(r) + [rng.randrange(len(side.values)) for _ in range(rng.choice([1, 2, 3]))]
+                for idx in picks:
+                    failed = failed or call(r, idx)
+        stats["declared-reference-built-by-assignment"] = stats.get("declared-reference-built-by-assignment", 0) + side.by_assignment
+        if failed:
+            found += 1
+            try:
+                out.failures.append(declared_failure(case))
+            except Exception as exc:  # noqa: BLE001
+                out.notes.append(f"declared history failed but could not be replayed from its data: {type(exc).__name__}: {exc}")
+                bump("declared-unreplayable")
+
+
 def run(ctx, scale=1.0):
     rng = random.Random(ctx["seed"] + 13)
     out = Outcome()
@@ -765,7 +1142,13 @@ def run(ctx, scale=1.0):
                 "element that another one holds (property element, items, contains, additional*, propertyNames, patternProperties / "
                 "dependencies member, composition member, operand of Not; keyword set / taken away, property add / delete / flag / "
                 "element, members changed), each followed by calls whose values are mostly values of earlier calls - an equal new "
-                "object or the very same object - compared with a fresh element of the same configuration on a freshly built equal value")
+                "object or the very same object - compared with a fresh element of the same configuration on a freshly built equal value; "
+                "declared histories (explicit data, replayed and shrunk from it): one or two elements / model classes, 6-9 steps on their "
+                "properties and object keywords - Property objects with and without an explicit source (equal to the attribute name or not) "
+                "stored, stored again under another attribute name (pop + item assignment, or a reassigned mapping), shared between the two "
+                "roots, removed, flag / element changed, attribute names a class body refuses, values that are not properties - each followed "
+                "by calls on objects over all keys the history has used; the reference is a fresh element built from the configuration the "
+                "harness itself derives from the steps that returned (a step that raised counts as not made), never read back from the element")
     stats = {}
     drv = core.Driver()
     try:
@@ -825,10 +1208,13 @@ def run(ctx, scale=1.0):
         t0 = time.time()
         run_carried(ctx, rng, out, stats, int(N_CARRIED[ctx["tier"]] * scale))
         stats["carried-seconds"] = round(time.time() - t0, 1)
+        t0 = time.time()
+        run_declared(ctx, rng, out, stats, int(N_DECLARED[ctx["tier"]] * scale))
+        stats["declared-seconds"] = round(time.time() - t0, 1)
     finally:
         drv.close()
     # failures that are explicit data (replayed from the case alone, shrunk) are reported first
-    out.failures.sort(key=lambda f: 0 if isinstance(f.get("case"), dict) and f["case"].get("family") == "carried" else 1)
+    out.failures.sort(key=lambda f: 0 if isinstance(f.get("case"), dict) and f["case"].get("family") in ("carried", "declared") else 1)
     out.stats = stats
     return out
 
@@ -839,15 +1225,16 @@ def search(ctx, reason):
     # the carried histories need no driver and are cheap: a larger batch of them first
     first = Outcome()
     run_carried(sub, random.Random(sub["seed"] + 13), first, {}, N_CARRIED[ctx["tier"]] * (6 if ctx["tier"] == "quick" else 1))
+    run_declared(sub, random.Random(sub["seed"] + 14), first, {}, N_DECLARED[ctx["tier"]] * (4 if ctx["tier"] == "quick" else 1))
     for failure in first.failures:
-        if failure["case"].get("family") == "carried":
+        if failure["case"].get("family") in ("carried", "declared"):
             return failure
     scale = 3.0 if ctx["tier"] == "quick" else 1.0
     found = run(sub, scale=scale)
     if not found.failures:
         return None
     failure = found.failures[0]
-    if isinstance(failure.get("case"), dict) and failure["case"].get("family") != "carried":
+    if isinstance(failure.get("case"), dict) and failure["case"].get("family") not in ("carried", "declared"):
         failure["case"]["rerun"] = {"seed": sub["seed"], "tier": ctx["tier"], "scale": scale}
     return failure
 
@@ -861,6 +1248,9 @@ def replay(payload):
     if case.get("family") == "carried":
         # explicit data: start dump, value pool, steps
         return carried_execute(case) is None
+    if case.get("family") == "declared":
+        # explicit data: base dumps of the roots, property declarations, value pool, steps
+        return declared_execute(case) is None
     # the other histories are replayed by re-running the seeded run (steps are PRNG-derived)
     again = case.get("rerun") or {}
     ctx = {"seed": again.get("seed", payload.get("seed", 0)), "tier": again.get("tier", payload.get("tier", "quick"))}
